@@ -153,3 +153,113 @@ theorem lowerU_of_lower {a b : Str} (h : lower a = lower b) : lowerU a = lowerU 
   rw [← lowerU_lower a, h, lowerU_lower]
 
 end Pybtex
+
+/-! ### `lowerPy` (the whole-string `str.lower()`) is idempotent
+
+Every character `lowerPy` emits is *stable*: it is not U+03A3, has no multi-character form and is
+not in the per-character table; a string of stable characters is left alone in every context.  The
+table-level facts are checked by kernel evaluation over every entry of the regenerated tables. -/
+namespace Pybtex
+
+/-- code points that `lower()` leaves alone in every context -/
+def stableN (n : Nat) : Bool :=
+  !Nat.beq n 0x3A3 && (lookupMulti n Gen.lowerMultiMap).isNone && (caseLookupG n Gen.lowerRuns).isNone
+
+theorem stableN_spec {c : Char} (h : stableN c.toNat = true) :
+    isCapitalSigma c = false ∧ lowerFullC c = [c] := by
+  simp only [stableN, Bool.and_eq_true, Bool.not_eq_true', Option.isNone_iff_eq_none] at h
+  obtain ⟨⟨h1, h2⟩, h3⟩ := h
+  refine ⟨h1, ?_⟩
+  simp [lowerFullC, h2, lowerUC, h3]
+
+theorem lowerPyAux_stable (s b : Str) (h : ∀ c ∈ s, stableN c.toNat = true) : lowerPyAux b s = s := by
+  induction s generalizing b with
+  | nil => rfl
+  | cons c r ih =>
+    obtain ⟨h1, h2⟩ := stableN_spec (h c (List.mem_cons_self ..))
+    simp only [lowerPyAux, h1, h2, Bool.false_eq_true, if_false]
+    rw [ih _ (fun x hx => h x (List.mem_cons_of_mem _ hx))]
+    rfl
+
+def imagesStable (tbl : List (Nat × Nat × List Run)) : Bool :=
+  tbl.all fun g => g.2.2.all fun r => (runPoints r).all fun n =>
+    match caseLookupG n tbl with
+    | none => true
+    | some m => m.isValidChar && stableN m
+
+theorem lowerRuns_imagesStable : imagesStable Gen.lowerRuns = true := by decide +kernel
+
+theorem multiStable :
+    (Gen.lowerMultiMap.all fun p => p.2.all fun m => m.isValidChar && stableN m) = true := by decide +kernel
+
+theorem sigmaFormsStable : stableN 0x3C2 = true ∧ stableN 0x3C3 = true := by decide +kernel
+
+theorem lookupMulti_mem {n : Nat} {l : List Nat} {tbl : List (Nat × List Nat)} (h : lookupMulti n tbl = some l) :
+    ∃ k, (k, l) ∈ tbl := by
+  induction tbl with
+  | nil => simp [lookupMulti] at h
+  | cons p tbl ih =>
+    obtain ⟨k, l'⟩ := p
+    simp only [lookupMulti] at h
+    split at h
+    · cases h; exact ⟨k, List.mem_cons_self ..⟩
+    · obtain ⟨k', hk'⟩ := ih h; exact ⟨k', List.mem_cons_of_mem _ hk'⟩
+
+theorem toNat_ofNat_valid {m : Nat} (h : m.isValidChar) : (Char.ofNat m).toNat = m := by
+  simp [Char.ofNat, h, Char.toNat, Char.ofNatAux]
+
+theorem lowerFullC_stable {c : Char} (hc : isCapitalSigma c = false) :
+    ∀ x ∈ lowerFullC c, stableN x.toNat = true := by
+  intro x hx
+  unfold lowerFullC at hx
+  cases hm : lookupMulti c.toNat Gen.lowerMultiMap with
+  | some l =>
+    rw [hm] at hx
+    obtain ⟨m, hml, rfl⟩ := List.mem_map.1 hx
+    obtain ⟨k, hk⟩ := lookupMulti_mem hm
+    have := multiStable
+    simp only [List.all_eq_true, Bool.and_eq_true, decide_eq_true_eq] at this
+    obtain ⟨hv, hs⟩ := this (k, l) hk m hml
+    rw [toNat_ofNat_valid hv]; exact hs
+  | none =>
+    rw [hm] at hx
+    simp only [List.mem_singleton] at hx
+    subst hx
+    unfold lowerUC
+    cases ht : caseLookupG c.toNat Gen.lowerRuns with
+    | some m =>
+      obtain ⟨g, hg, r, hr, hn⟩ := caseLookupG_mem ht
+      have := lowerRuns_imagesStable
+      simp only [imagesStable, List.all_eq_true] at this
+      have h3 := this g hg r hr c.toNat hn
+      rw [ht] at h3
+      simp only [Bool.and_eq_true, decide_eq_true_eq] at h3
+      simp only
+      rw [toNat_ofNat_valid h3.1]; exact h3.2
+    | none =>
+      simp only [stableN, hm, ht, Option.isNone_none, Bool.and_true, Bool.not_eq_true']
+      exact hc
+
+theorem lowerPyAux_all_stable (s b : Str) : ∀ x ∈ lowerPyAux b s, stableN x.toNat = true := by
+  induction s generalizing b with
+  | nil => intro x hx; simp [lowerPyAux] at hx
+  | cons c r ih =>
+    intro x hx
+    simp only [lowerPyAux, List.mem_append] at hx
+    rcases hx with hx | hx
+    · by_cases hc : isCapitalSigma c = true
+      · simp only [hc, if_true, List.mem_singleton] at hx
+        subst hx
+        split
+        · exact sigmaFormsStable.1
+        · exact sigmaFormsStable.2
+      · have hc' : isCapitalSigma c = false := by simpa using hc
+        simp only [hc', Bool.false_eq_true, if_false] at hx
+        exact lowerFullC_stable hc' x hx
+    · exact ih _ x hx
+
+/-- `s.lower().lower() == s.lower()` for every string: the only fact about `str.lower()` the C13 proofs use -/
+theorem lowerPy_idem (s : Str) : lowerPy (lowerPy s) = lowerPy s :=
+  lowerPyAux_stable _ _ (lowerPyAux_all_stable s [])
+
+end Pybtex
